@@ -357,7 +357,7 @@ func main() {
 	case "sched":
 		sched()
 	}
-	res.DistinctNontrivial = int64(len(distinct))
+	res.SetDistinctKeys(distinct)
 	res.Finish()
 }
 
